@@ -2348,6 +2348,9 @@ pub enum UnpackError {
 
 pub fn unpack_columns(mut buf: &[u8]) -> Result<Vec<SqliteValueRef<'_>>, UnpackError> {
     let mut ret = vec![];
+    if !buf.has_remaining() {
+        return Err(UnpackError::Abort);
+    }
     let num_columns = buf.get_u8();
 
     for _i in 0..num_columns {
@@ -2360,10 +2363,10 @@ pub fn unpack_columns(mut buf: &[u8]) -> Result<Vec<SqliteValueRef<'_>>, UnpackE
 
         match column_type {
             Some(ColumnType::Blob) => {
-                if buf.remaining() < intlen {
+                if intlen > 8 || buf.remaining() < intlen {
                     return Err(UnpackError::Abort);
                 }
-                let len = buf.get_int(intlen) as usize;
+                let len = buf.get_uint(intlen) as usize;
                 if buf.remaining() < len {
                     return Err(UnpackError::Abort);
                 }
@@ -2377,19 +2380,20 @@ pub fn unpack_columns(mut buf: &[u8]) -> Result<Vec<SqliteValueRef<'_>>, UnpackE
                 ret.push(SqliteValueRef(ValueRef::Real(buf.get_f64())));
             }
             Some(ColumnType::Integer) => {
-                if buf.remaining() < intlen {
+                if intlen > 8 || buf.remaining() < intlen {
                     return Err(UnpackError::Abort);
                 }
-                ret.push(SqliteValueRef(ValueRef::Integer(buf.get_int(intlen))));
+                // the packed form is the minimal number of bytes of the value, zero-extended
+                ret.push(SqliteValueRef(ValueRef::Integer(buf.get_uint(intlen) as i64)));
             }
             Some(ColumnType::Null) => {
                 ret.push(SqliteValueRef(ValueRef::Null));
             }
             Some(ColumnType::Text) => {
-                if buf.remaining() < intlen {
+                if intlen > 8 || buf.remaining() < intlen {
                     return Err(UnpackError::Abort);
                 }
-                let len = buf.get_int(intlen) as usize;
+                let len = buf.get_uint(intlen) as usize;
                 if buf.remaining() < len {
                     return Err(UnpackError::Abort);
                 }
